@@ -286,9 +286,12 @@ class FlagByExactValueProvider(BaseFlagProvider):
             if data < 0 or data > flag_mask:
                 raise OutOfRangeLoadError(0, flag_mask, data)
 
-            # data already has been validated for all edge cases
-            # so enum lookup cannot raise an error
-            return enum(data)
+            # A value inside the mask can still be refused: Flag rejects a bit that is named
+            # only as a part of a multi-bit member when the other parts are absent (READ=1, PERM=12: 5 is READ|4)
+            try:
+                return enum(data)
+            except ValueError:
+                raise MsgLoadError("Bad flag value", data) from None
 
         return flag_loader
 
